@@ -1,4 +1,4 @@
 package main
 
 func genConsts(repo string) (string, error) { return "(* GENERATED: constants *)\n", nil }
-func genAccess(repo string) (string, error) { return "(* GENERATED: access table *)\n", nil }
+
